@@ -32,8 +32,8 @@ PROPS = {
         "assumptions": ["'bounded time' = returns within 3 s of wall clock after the harness tears the stream down; environment calls (reads, callbacks) return"],
     },
     "C08": {
-        "suites": [sync.SchedSuite],
-        "assumptions": ["'no data race' is a statement about the Go memory model: not expressible in the model; the overlap detector decides 'no two SendMsg/RecvMsg in flight'"],
+        "suites": [sync.SchedSuite, sync.RaceSuite],
+        "assumptions": ["'no data race' is a statement about the Go memory model, not expressible in the Lean model: it is decided by the Go race detector on the executed schedules (suite 'race'), i.e. by search, not by a theorem; the overlap detector decides 'no two SendMsg/RecvMsg in flight'"],
     },
     "C03": {
         "suites": [proto.Hostile, pure.ValidatorSuite],
